@@ -195,6 +195,9 @@ func TestC10(t *testing.T) {
 		}
 	}
 	progs = append(progs, c10prog{[]string{"Set(a,v2)"}, []string{"Inc(b)"}}, c10prog{[]string{"Delete(a)"}, []string{"Set(c)"}})
+	if os.Getenv("VERIF_C10_ONLY") == "bucket" { // development knob: only the bucket program
+		progs = nil
+	}
 	logPath := ""
 	if g := os.Getenv("GORACE"); strings.Contains(g, "log_path=") {
 		logPath = strings.Fields(g[strings.Index(g, "log_path=")+9:])[0] + fmt.Sprintf(".%d", os.Getpid())
@@ -202,7 +205,7 @@ func TestC10(t *testing.T) {
 	r.Extra["race_detector"] = raceEnabled
 	r.Extra["programs"] = len(progs)
 	r.Extra["preemption_bound"] = bound
-	r.Rule = fmt.Sprintf("harness built with -race; %d programs = reader in {GetAll, Get(a), GetByIndex CREATION_TIME (cold index build), GetByIndexStream with a value filter; thorough: also GetByIndex KEY, Count} x writer in {Set of a new key, Set(a) writing value and UpdatedBy together, Delete(a), ShiftByKeys([a]); thorough: also IncrementInt32(b)} plus two writer/writer pairs, on an in-memory swamp holding a,b,z; every schedule with at most %d preemptions at the scheduling points of the beacon, treasure, guard, swamp and gateway code; the scheduler's hand-off is invisible to the race detector, so for each schedule the detector sees exactly the synchronisation the code performs. Oracle per execution: no new data-race report whose two accesses lie in hydraide code; no request without a response (recovered panic); the worker process survives; every read of key a returns (value, UpdatedBy) of one version. Non-trivial = executions with at least one preemption", len(progs), bound)
+	r.Rule = fmt.Sprintf("harness built with -race; %d programs = reader in {GetAll, Get(a), GetByIndex CREATION_TIME (cold index build), GetByIndexStream with a value filter; thorough: also GetByIndex KEY, Count} x writer in {Set of a new key, Set(a) writing value and UpdatedBy together, Delete(a), ShiftByKeys([a]); thorough: also IncrementInt32(b)} plus two writer/writer pairs, on an in-memory swamp holding a,b,z; every schedule with at most %d preemptions at the scheduling points of the beacon, treasure, guard, swamp and gateway code; the scheduler's hand-off is invisible to the race detector, so for each schedule the detector sees exactly the synchronisation the code performs. Oracle per execution: no new data-race report whose two accesses lie in hydraide code; no request without a response (recovered panic); the worker process survives; every read of key a returns (value, UpdatedBy) of one version. Plus one three-thread program on a swamp of msgpack-body records: a filtered read that builds the field index of the filtered field for the first time || two writers saving a matching record each, every schedule with at most 2 preemptions inside the field-index (bucket) package. Non-trivial = executions with at least one preemption", len(progs), bound)
 	r.Assumptions = []string{"the race detector's verdict is per execution (happens-before analysis of that schedule); its shadow memory keeps four accesses per word, the programs are tiny", "reports whose innermost non-shim frames are both outside hydraide are ignored (harness, in-memory file system)"}
 	if !raceEnabled {
 		r.NotExhaustive("the binary was built without -race: only the panic / torn-read oracles ran")
@@ -307,5 +310,80 @@ func TestC10(t *testing.T) {
 				}
 			}
 		}
+		c10bucket(r, logPath, &seenLen)
 	})
+}
+
+// c10bucket: the field index ("bucket") of a msgpack body field is built by the first filtered read of that field;
+// records saved while the build runs are buffered and applied by drain rounds. Three threads: a filtered read on a
+// cold swamp, and two writers saving a matching record each. Preemption only inside the bucket package, where the
+// buffer hand-over happens, but with bound 2 in both tiers (a second drain round needs two).
+func c10bucket(r *kit.Run, logPath string, seenLen *int64) {
+	body := func() {
+		rg := newRig(true)
+		swamp := "mem/r/racebucket"
+		rec := func(k, sv string, created int64) *hydrapb.KeyValuePair {
+			return &hydrapb.KeyValuePair{Key: k, BytesVal: append([]byte{0xC7, 0x00}, mp(map[string]any{"s": sv})...), CreatedAt: ts(1700000000 + created)}
+		}
+		set := func(kv *hydrapb.KeyValuePair) {
+			rg.gw.Set(bg, &hydrapb.SetRequest{Swamps: []*hydrapb.SwampRequest{{IslandID: 1, SwampName: swamp, CreateIfNotExist: true, Overwrite: true, KeyValues: []*hydrapb.KeyValuePair{kv}}}})
+		}
+		set(rec("a", "x", 1))
+		set(rec("b", "y", 2))
+		vrt.Drain()
+		fx := &hydrapb.FilterGroup{Logic: hydrapb.FilterLogic_AND, Filters: []*hydrapb.TreasureFilter{
+			{Operator: hydrapb.Relational_EQUAL, BytesFieldPath: p("s"), CompareValue: &hydrapb.TreasureFilter_StringVal{StringVal: "x"}}}}
+		t0 := vrt.Go("reader", func() {
+			fs := &fakeStream[hydrapb.GetByIndexStreamResponse]{}
+			rg.gw.GetByIndexStream(&hydrapb.GetByIndexStreamRequest{IslandID: 1, SwampName: swamp, IndexType: hydrapb.IndexType_CREATION_TIME, Filters: fx}, fs)
+		})
+		t1 := vrt.Go("writer1", func() { set(rec("c", "x", 3)) })
+		t2 := vrt.Go("writer2", func() { set(rec("d", "x", 4)) })
+		vrt.Join(t0)
+		vrt.Join(t1)
+		vrt.Join(t2)
+		vrt.Quiesce()
+	}
+	noPre := func(label string) bool { return !strings.Contains(label, "swamp/bucket.") }
+	e := &vrt.Explorer{Body: body, Stop: r.OutOfTime}
+	e.Shard, e.ShardN = r.Shard()
+	e.Cfg = vrt.Config{Bound: 2, Sites: true, NoPreempt: noPre, StepCap: 300000, EnvIdle: true}
+	if !r.Quick() {
+		e.MaxExecs = 40 * c10ThoroughExecsPerShard
+	}
+	pr := "bucket: GetByIndexStream(filter s=x, cold) || Set(c,s=x) || Set(d,s=x)"
+	e.Check = func(x *vrt.Exec) {
+		r.Eval(1)
+		r.Count("bucket_executions", 1)
+		if x.Cost > 0 {
+			r.Nontrivial(fmt.Sprintf("bucket/%v", x.Choices()))
+		}
+		cs := map[string]any{"program": pr, "schedule": x.Choices(), "preemptions": x.Cost}
+		for _, pn := range x.Panics {
+			r.Fail("concurrency", "thread-panic:bucket", pn, cs)
+		}
+		if x.Deadlock {
+			r.Fail("concurrency", "requests-never-return:bucket", fmt.Sprintf("program %s: blocked %v", pr, x.Blocked), cs)
+		}
+		if logPath != "" {
+			if b, err := os.ReadFile(logPath); err == nil && int64(len(b)) > *seenLen {
+				text := string(b[*seenLen:])
+				*seenLen = int64(len(b))
+				for _, rc := range c10races(text) {
+					if strings.Contains(rc, "(outside hydraide)") {
+						r.Count("race_reports_outside_hydraide", 1)
+						continue
+					}
+					cs2 := map[string]any{"program": pr, "schedule": x.Choices(), "report": text[:min(len(text), 6000)]}
+					r.Fail("race", "data-race:"+rc, fmt.Sprintf("program %s, schedule with %d preemptions: the race detector reports unsynchronised accesses in %s", pr, x.Cost, rc), cs2)
+				}
+			}
+		}
+		r.Outcome(fmt.Sprintf("bucket|%v|%d", x.Deadlock, len(x.Panics)))
+	}
+	e.Run()
+	r.Count("executions", int64(e.Stats.Execs))
+	if e.Stats.Capped {
+		r.NotExhaustive(fmt.Sprintf("program %s capped after %d executions", pr, e.Stats.Execs))
+	}
 }
